@@ -220,6 +220,16 @@ func runC19(c *Ctx) {
 			newObj()
 			continue
 		}
+		if r.Chance(1, 8) {
+			// Router.Use on both sides: facade objects created earlier must pick the new middleware up like plain calls do
+			names := w.newNames("u", 1)
+			w.a.Use(w.mws(w.envA, names)...)
+			w.b.Use(w.mws(w.envB, names)...)
+			w.ops = append(w.ops, fmt.Sprintf("r.Use(%v) on both routers", names))
+			c.Class("router_use_between_facade_calls")
+			w.compareAll()
+			continue
+		}
 		oi := r.Intn(len(w.objs))
 		o := w.objs[oi]
 		// the rest of a pool pattern below this object's pattern (or anything else)
